@@ -80,3 +80,14 @@ CHECKS['C10'] = dict(
     text='Decides canonical alphabet/constants and writer/reader table agreement only. The bijection law over all integers is arithmetic and NOT decided.',
     ref='DESIGN.md section 3 C10',
     note='Narrow claim; a necessary condition of canonical form and nothing more.')
+
+CHECKS['C01'] = dict(
+    technique='static analysis: definition/production skeleton alignment (abstract interpretation of actions x definitions table), print-grammar FIRST/LAST window analysis x abstract evaluation of the layout handlers x lexer-rule automata (regex syntax trees -> DFAs over character-class atoms) for token fusion, restricted-production and position-independence rules',
+    text='Decides the three premises of the round-trip induction on tables: every (token class, layout run, token class) window the pretty printer can emit (about 600) x boundary character classes is either separated by printed white space or shown not to fuse on the automata of the repository\'s own token rules; ES5 7.8.3 adjacency is included. Not a behavioural proof: walker.walk and the rule-class semantics are transcribed (digest-guarded).',
+    ref='DESIGN.md section 3 C01',
+    note='Trusted: CPython ast and re._parser, transcriptions of walker.process_layouts / ply.lex rule order / ruletypes semantics (digest-guarded), ES5 reference facts.')
+CHECKS['C02'] = dict(
+    technique='same machinery as C01 under the minify(drop_semi off/on) tables, plus an EndStatement-site x FOLLOW-context enumeration of the print grammar for the semicolon-dropping rule and a language-equality check of the continuation pattern',
+    text='Decides no-fusion for about 2300 windows x boundary classes per table, the complete table of semicolon contexts (268 site x context x table cells) and that continuation stripping is the only literal rewrite. The C05 findings are assumed for re-lexing of `/`.',
+    ref='DESIGN.md section 3 C02',
+    note='Trusted: as C01.')
